@@ -78,6 +78,20 @@ json.dump(e,open(ev,'w'),indent=1)
 PY
   echo "  thorough: self-test mutants fired $fired/$total"
 fi
+# regression corpus: independently seeded breaking changes of this property, and behaviour-preserving refactorings
+if [ -z "$TABVERIF_NO_MUTANTS" ] && [ -x mutants/replay.sh ]; then
+  rep=$(mutants/replay.sh "$id" 2>/dev/null)
+  if [ -n "$rep" ]; then
+    python3 - "$ev" "$rep" <<'PY'
+import json,sys
+ev,rep=sys.argv[1:3]
+e=json.load(open(ev))
+e['coverage'].setdefault('thorough',{})['regression_corpus']=json.loads(rep)
+json.dump(e,open(ev,'w'),indent=1)
+PY
+    echo "  thorough: regression corpus $rep" | cut -c1-400
+  fi
+fi
 if [ $worst -ne 0 ] && [ $rc -eq 0 ]; then
   echo "VIOLATION property=$id replay=$ev (a thorough configuration disagrees or fails; see coverage.thorough)"
   exit 1
